@@ -282,7 +282,8 @@ class ModuleFinder:
                         namespace_dirs.append(abs_path)
 
         if namespace_dirs:
-            return NamespacePackage(module_name, namespace_dirs)
+            # (Like for regular packages: a stubs-only distribution `name-stubs` stands for the package `name`.)
+            return NamespacePackage(real_module_name, namespace_dirs)
 
         raise ModuleNotFoundError(module_name)
 
